@@ -111,7 +111,7 @@ def _menus(fname, pname, param, H, tmp):
     if pname == "order":
         return [1, 2] if d is inspect.Parameter.empty else [d, 1, 2] if d is None else [d, 2]
     if pname in ("max_order",):
-        return [d, 2] if d is None else [d]
+        return [d, 1, 2, 0] if d is None else [d, 1]
     if pname == "s":
         return [1, 2]
     if pname == "d":
@@ -194,6 +194,15 @@ def _combos(fname, f, H, tmp):
         # keep the all-defaults combination, then a deterministic spread
         step = len(out) / cap
         out = [out[int(i * step)] for i in range(cap)]
+    # one factor at a time: every value of every parameter's menu occurs at least once (others at their first value),
+    # whatever the cap kept
+    base = {n: m[0] for n, m in zip(names, menus)}
+    for n, m in zip(names, menus):
+        for v in m[1:]:
+            kw = dict(base)
+            kw[n] = v
+            if kw not in out:
+                out.append(kw)
     return out
 
 
